@@ -460,6 +460,16 @@ func TestC19(t *testing.T) {
 			chinese.Eval(dayCase{j})
 		}
 	}
+	// a dense window of days asked again in scrambled order (same oracle, different predecessor: a memo keyed on too
+	// little answers the previous question)
+	{
+		start := ref.JDN(2019, 1, 1) + ev.Shard*230
+		for _, perm := range ev.Shuffled(460, ev.Pick(2, 8), 19) {
+			for _, k := range perm {
+				chinese.Eval(dayCase{start + k})
+			}
+		}
+	}
 	chinese.Rapid(ev.Share(ev.Pick(16000, 160000)), func(t *rapid.T) dayCase {
 		y := gen.Year(t, 1, 9997)
 		if rapid.IntRange(0, 2).Draw(t, "leap") == 0 {
